@@ -6,6 +6,7 @@ f29_0:
   call f26_1
   call f5_1
   lea d_f29_0(%rip),%rax
+  mov wvsv0@GOTPCREL(%rip),%rax
   ret
 .section .data.d_f29_0,"aw",@progbits
 .globl d_f29_0
